@@ -66,6 +66,9 @@ WARM = 0   # bit mask: the operands built next are looked at first (1 .s, 2 str(
            # 32: the recorded call is the second identical call on the same operand objects (fmtlib._again);
            # 64: the same call was cut short by a foreign exception at some line first (fmtlib._cut_short);
            # 128: operands are instances of a FmtStr subclass with a constructor of its own
+           # 1024: the operand object went through a pseudo-random prologue of other public read-only calls first
+           #       (slices incl. reversed ranges, indexing, iteration, str methods, shared_atts, split, width queries ...)
+           # 2048: the operand is a PIECE cut out of a larger value that went through such a prologue before the cut
            # 512: the recorded call is spelled with keyword arguments, as the function's signature publishes them (call())
            # 256: operands are DERIVED from another value that was already rendered / measured: the same runs with one
            #      attribute different (then set right with copy_with_new_atts) or one more (then new_with_atts_removed)
@@ -139,6 +142,51 @@ def _subclass():
     return _SUB[0]
 
 
+SEED = 0     # set per input by PureCheck._execute: makes the prologues reproducible
+
+
+def prologue(f, salt=0):
+    """2..5 public read-only calls on f, chosen pseudo-randomly (SEED): a FmtStr is a value - nothing done to it before
+    may change what a later call answers."""
+    import random
+    from curtsies.formatstring import linesplit
+    r = random.Random(SEED * 31 + salt)
+    n = len(f)
+
+    def rb():
+        return r.randrange(-n - 2, n + 3)
+    menu = [
+        lambda: f[rb():rb()], lambda: f[rb():rb()], lambda: f[rb():rb()], lambda: f[r.randrange(n)] if n else None,
+        lambda: list(f), lambda: f.upper(), lambda: f.ljust(n + 1), lambda: f.rjust(n + 2, "*"), lambda: f.shared_atts,
+        lambda: f.split("a"), lambda: f.split(" "), lambda: f.splitlines(), lambda: f.width,
+        lambda: f.width_aware_slice(slice(abs(rb()), abs(rb()) + 1)), lambda: hash(f), lambda: f == "x", lambda: str(f),
+        lambda: repr(f), lambda: f.copy(), lambda: f + "x", lambda: "y" + f, lambda: f * 2, lambda: f.splice("q", min(1, n)),
+        lambda: linesplit(f, 3), lambda: f.width_at_offset(min(1, n)), lambda: list(f.width_aware_splitlines(3)),
+        lambda: f.strip(), lambda: f.center(n + 3), lambda: f.s, lambda: len(f), lambda: f.new_with_atts_removed("bold"),
+        lambda: f.copy_with_new_atts(underline=True), lambda: f.join(["p", "q"]), lambda: f.append("z"),
+    ]
+    for _ in range(r.randrange(2, 6)):
+        try:
+            r.choice(menu)()
+        except Exception:  # noqa - what a prologue call answers is not under test here
+            pass
+    return f
+
+
+def _piece(runs):
+    """the value with these runs cut out of a larger value that was used before the cut (None when a cut cannot give
+    exactly these runs: empty runs do not survive slicing)"""
+    from curtsies.formatstring import FmtStr, Chunk
+    if not runs or any(not t for t, _ in runs):
+        return None
+    n = sum(len(t) for t, _ in runs)
+    big = FmtStr(Chunk("zq", {"fg": 35, "underline": True}), *(Chunk(dec_text(t), dec_atts(a)) for t, a in runs),
+                 Chunk("w", {"bg": 43}))
+    prologue(big, 7)
+    piece = big[2:2 + n]
+    return piece if enc_fmtstr(piece) == [[list(t), list(a)] for t, a in runs] else None
+
+
 def _derived(runs):
     """the value with these runs, obtained from a value that was on a screen before: same runs, one attribute other /
     one attribute more, rendered, hashed and measured, then re-formatted into the wanted value"""
@@ -167,15 +215,23 @@ def build_fmtstr(runs):
     exercised separately by C14/C01 spellings)."""
     from curtsies.formatstring import FmtStr, Chunk
     cls = _subclass() if WARM & 128 else (lambda *chunks: FmtStr(*chunks))
+    if WARM & 2048 and not WARM & (128 | 256 | 16) and runs:
+        d = _piece(runs)
+        if d is not None:
+            return warm(d, WARM) if WARM & 15 else d
     if WARM & 256 and not WARM & 128 and runs:
         d = _derived(runs)
         if d is not None:
+            if WARM & 1024:
+                prologue(d)
             return warm(d, WARM) if WARM & 15 else d
     if WARM & 16:
         made = {}
         f = cls(*(made.setdefault(json.dumps([t, a]), Chunk(dec_text(t), dec_atts(a))) for t, a in runs))
     else:
         f = cls(*(Chunk(dec_text(t), dec_atts(a)) for t, a in runs))
+    if WARM & 1024 and not WARM & 128:
+        prologue(f)
     return warm(f, WARM) if WARM & 15 else f
 
 
